@@ -111,6 +111,12 @@ func (n *node) hasSilence(id, comment string) bool {
 	return err == nil && s.Comment == comment
 }
 
+// hasExpiredSilence: the node holds the silence in its expired form (ended), not absent and not still active.
+func (n *node) hasExpiredSilence(id, comment string) bool {
+	s, err := n.sil.QueryOne(context.Background(), silence.QIDs(id))
+	return err == nil && s.Comment == comment && !s.EndsAt.AsTime().After(time.Now())
+}
+
 func (n *node) hasEntry(gk string, rc *nfpb.Receiver, firing uint64) bool {
 	es, err := n.nfl.Query(nflog.QGroupKey(gk), nflog.QReceiver(rc))
 	return err == nil && len(es) == 1 && len(es[0].FiringAlerts) > 0 && es[0].FiringAlerts[0] == firing
@@ -147,6 +153,7 @@ type update struct {
 	firing  uint64
 	size    int
 	from    int
+	expired bool // the silence was expired again on its node right after its creation
 }
 
 // scenario: one cluster, a series of updates of chosen encoded sizes from chosen nodes; every
@@ -193,7 +200,16 @@ func deliveryScenario(r *rand.Rand, size int, pushPull time.Duration, sizes []in
 			if err := nodes[from].sil.Set(context.Background(), s); err != nil {
 				return nil, nil, err
 			}
-			ups = append(ups, update{kind: "sil", id: s.Id, comment: comment, size: sz, from: from})
+			u := update{kind: "sil", id: s.Id, comment: comment, size: sz, from: from}
+			if r.Intn(3) == 0 {
+				// expired again a moment later: ended, but part of the current state until its retention is over
+				time.Sleep(3 * time.Millisecond)
+				if err := nodes[from].sil.Expire(context.Background(), s.Id); err != nil {
+					return nil, nil, err
+				}
+				u.expired = true
+			}
+			ups = append(ups, u)
 		} else {
 			n := (sz - 60) / 9
 			if n < 1 {
@@ -229,13 +245,19 @@ func deliveryScenario(r *rand.Rand, size int, pushPull time.Duration, sizes []in
 					continue
 				}
 				ok := false
-				if u.kind == "sil" {
+				if u.kind == "sil" && u.expired {
+					ok = n.hasExpiredSilence(u.id, u.comment)
+				} else if u.kind == "sil" {
 					ok = n.hasSilence(u.id, u.comment)
 				} else {
 					ok = n.hasEntry(u.gk, rc, u.firing)
 				}
 				if !ok {
-					miss = append(miss, fmt.Sprintf("update %d (%s, ~%d bytes, from n%d) not on n%d", ui, u.kind, u.size, u.from, ni))
+					what := u.kind
+					if u.expired {
+						what = "sil, expired after creation"
+					}
+					miss = append(miss, fmt.Sprintf("update %d (%s, ~%d bytes, from n%d) not on n%d", ui, what, u.size, u.from, ni))
 				}
 			}
 		}
@@ -258,7 +280,7 @@ func deliveryScenario(r *rand.Rand, size int, pushPull time.Duration, sizes []in
 
 func TestDelivery(t *testing.T) {
 	run := vf.Cur()
-	sub := run.Sub("loopback-delivery", "real cluster.Create peers on 127.0.0.1 (gossip 50 ms, probe 200 ms) with real silence and notification-log states registered through AddState/SetBroadcast; enumerated over cluster size 2..4 x join order (random join targets, optional late joiner that must obtain everything through the full-state exchange) x path (push/pull effectively off = gossip and oversized TCP only; push/pull 300 ms) x payload sizes swept around the gossip threshold (600..800 bytes in steps, 10 kB, 200 kB); every update made on one node must be visible through Query on every other node (content equal) within the deadline, and no oversized message may be dropped; a missed deadline is re-run twice and is a violation only if it misses every time (otherwise inconclusive); non-trivial = >=1 oversized and >=1 gossiped update; distinct by (seed)", 6)
+	sub := run.Sub("loopback-delivery", "real cluster.Create peers on 127.0.0.1 (gossip 50 ms, probe 200 ms) with real silence and notification-log states registered through AddState/SetBroadcast; enumerated over cluster size 2..4 x join order (random join targets, optional late joiner that must obtain everything through the full-state exchange) x path (push/pull effectively off = gossip and oversized TCP only; push/pull 300 ms) x payload sizes swept around the gossip threshold (600..800 bytes in steps, 10 kB, 200 kB); a third of the silences are expired again right after their creation (ended, still part of the state); every update made on one node must be visible through Query on every other node (content equal; expired ones in their expired form) within the deadline, and no oversized message may be dropped; a missed deadline is re-run twice and is a violation only if it misses every time (otherwise inconclusive); non-trivial = >=1 oversized and >=1 gossiped update; distinct by (seed)", 6)
 	type plan struct {
 		size     int
 		pushPull time.Duration
@@ -825,4 +847,79 @@ func TestRejoinAfterLongOutage(t *testing.T) {
 		sub.Violation("returning-peer-not-readmitted-after-a-long-outage", map[string]any{"outage": "5m20s", "survivor_cluster_size": a.peer.ClusterSize(), "returning_peer_has_first_silence": b2.hasSilence(s.Id, s.Comment), "returning_peer_has_second_silence": b2.hasSilence(s2.Id, s2.Comment)})
 	}
 	sub.Case(vf.Digest("long-outage"), true)
+}
+
+// TestFirstJoinFails: an instance whose configured peers are all down when it starts (its first join
+// attempt fails) keeps trying; when a peer that does not list it comes up later, the two connect and
+// exchange their complete states - what "a joining ... instance obtains the complete current state"
+// needs when instances are not started in a convenient order.
+func TestFirstJoinFails(t *testing.T) {
+	run := vf.Cur()
+	sub := run.Sub("first-join-fails-then-peer-appears", "two real peers on loopback with the production reconnect tasks (reconnect every 1 s); A is started listing B's address while B is not running (A's first join fails) and creates silences and log entries alone; 1.5-3 s later B is started on that address with NO peers to join and makes its own updates; within 20 s both must list each other and hold each other's silences and log entries (made before and after they connected); a miss is re-run twice and counts only if it misses every time; non-trivial = every case; distinct by (seed)", 2)
+	n := run.N(3, 40)
+	vf.Parallel(t, n, 3, func(t *testing.T, i int) {
+		r := sub.Rand(i)
+		rc := &nfpb.Receiver{GroupName: "r0", Integration: "webhook", Idx: 0}
+		mk := func(name string, port int, join []string) (*node, error) {
+			reg := prometheus.NewRegistry()
+			p, err := cluster.Create(logger, reg, fmt.Sprintf("127.0.0.1:%d", port), "", join, false, time.Hour, 50*time.Millisecond, 5*time.Second, 2*time.Second, 500*time.Millisecond, 200*time.Millisecond, nil, true, "", name)
+			if err != nil {
+				return nil, err
+			}
+			nd := &node{name: name, peer: p, reg: reg}
+			nd.sil, _ = silence.New(silence.Options{Retention: time.Hour, Metrics: reg, EventRecorder: eventrecorder.NopRecorder()})
+			nd.nfl, _ = nflog.New(nflog.Options{Retention: time.Hour, Metrics: reg})
+			nd.sil.SetBroadcast(p.AddState("sil", nd.sil, reg).Broadcast)
+			nd.nfl.SetBroadcast(p.AddState("nfl", nd.nfl, reg).Broadcast)
+			p.Join(time.Second, 6*time.Hour) // the error of a failed first attempt is only logged by the application
+			return nd, nil
+		}
+		var problem map[string]any
+		for attempt := 0; attempt < 3; attempt++ {
+			problem = nil
+			pa, pb := freeLoopbackPort(), freeLoopbackPort()
+			a, err := mk(fmt.Sprintf("fj-a-%d-%d", i, attempt), pa, []string{fmt.Sprintf("127.0.0.1:%d", pb)})
+			if err != nil {
+				sub.Inconclusive(err.Error())
+				return
+			}
+			now := time.Now()
+			s1 := silh.NewSilence("", [][]model.Matcher{{{Name: "alertname", Op: "=", Value: "A"}}}, now, now.Add(50*time.Minute), "made by A while alone")
+			a.sil.Set(context.Background(), s1)
+			a.nfl.Log(rc, "{}:{g=\"a-alone\"}", []uint64{11}, nil, nil, 0)
+			time.Sleep(1500*time.Millisecond + time.Duration(r.Intn(1500))*time.Millisecond)
+			b, err := mk(fmt.Sprintf("fj-b-%d-%d", i, attempt), pb, nil)
+			if err != nil {
+				a.stop()
+				sub.Inconclusive("start of the second peer: " + err.Error())
+				return
+			}
+			s2 := silh.NewSilence("", [][]model.Matcher{{{Name: "alertname", Op: "=", Value: "B"}}}, time.Now(), time.Now().Add(50*time.Minute), "made by B before they connected")
+			b.sil.Set(context.Background(), s2)
+			b.nfl.Log(rc, "{}:{g=\"b-early\"}", []uint64{22}, nil, nil, 0)
+			connected := waitFor(20*time.Second, func() bool { return a.peer.ClusterSize() == 2 && b.peer.ClusterSize() == 2 })
+			s3 := silh.NewSilence("", [][]model.Matcher{{{Name: "alertname", Op: "=", Value: "C"}}}, time.Now(), time.Now().Add(50*time.Minute), "made by A after B came up")
+			a.sil.Set(context.Background(), s3)
+			ok := connected && waitFor(10*time.Second, func() bool {
+				return b.hasSilence(s1.Id, s1.Comment) && b.hasSilence(s3.Id, s3.Comment) && a.hasSilence(s2.Id, s2.Comment) &&
+					b.hasEntry("{}:{g=\"a-alone\"}", rc, 11) && a.hasEntry("{}:{g=\"b-early\"}", rc, 22)
+			})
+			if !ok {
+				problem = map[string]any{"seed": sub.Seed(i), "connected_within_20s": connected, "a_cluster_size": a.peer.ClusterSize(), "b_cluster_size": b.peer.ClusterSize(),
+					"b_has_silence_made_by_a_alone": b.hasSilence(s1.Id, s1.Comment), "b_has_silence_made_by_a_later": b.hasSilence(s3.Id, s3.Comment), "a_has_silence_made_by_b": a.hasSilence(s2.Id, s2.Comment),
+					"b_has_log_entry_of_a": b.hasEntry("{}:{g=\"a-alone\"}", rc, 11), "a_has_log_entry_of_b": a.hasEntry("{}:{g=\"b-early\"}", rc, 22)}
+			}
+			a.stop()
+			b.stop()
+			if ok {
+				break
+			}
+			sub.Count("re-runs", 1)
+		}
+		if problem != nil {
+			sub.Violation("instance-whose-first-join-failed-never-connects", problem)
+		}
+		sub.Count("cases", 1)
+		sub.Case(vf.Digest(sub.Seed(i)), true)
+	})
 }
